@@ -74,6 +74,7 @@ class Case:
         self.runs = []           # per run of c: dict(start, end, initial, amended, verdicts...)
         self.defer_calls = []
         self.envcodes = {}       # value of the tracked environment variable -> small int
+        self.how = {}            # (path, order) -> the way that write reached the file system
 
     def envcode(self, value):
         if value not in self.envcodes:
@@ -91,6 +92,51 @@ class Case:
 
 ENV_VAR = "VERIF_C03_ENV"
 OUT = "c_out.txt"
+
+# The ways a file system lets somebody put other (or the same) bytes under a path while a command
+# runs; `changes` = whether content, size or mode (what FileHash equality is about) is different
+# afterwards.  Which stat fields survive is what FileHash.refreshed's shortcut is about:
+#   inplace       open(O_TRUNC) + write: same inode, the kernel stamps a new mtime, size may change
+#   rename        a new file is renamed over the path: new inode, new mtime
+#   rename_keep   a new file with OTHER bytes of the SAME size, the same mode and the same mtime is
+#                 renamed over the path (rsync -t, cp -p + mv, an editor that saves atomically and
+#                 restores the time stamp): only the inode number (and the digest) differ
+#   chmod_keep    the same, but the bytes are the same and the mode differs
+#   same_newino   the SAME bytes, mode and mtime in a new inode renamed over the path (nothing changed)
+#   touch         utime only (nothing changed)
+# Not produced: other bytes of the same size written in place with the old mtime restored by utime
+# (no stat field differs; no scheme short of re-reading every file can see it: assumption
+# no_stat_forgery, props/C03.v C03_refreshed_forgery_is_not_noticed).
+REPLACE_KINDS = {"inplace": True, "rename": True, "rename_keep": True, "chmod_keep": True,
+                 "same_newino": False, "touch": False}
+
+
+def replace_file(path, variant, how):
+    """Apply one of the stat-preserving REPLACE_KINDS to the existing regular file `path`."""
+    import stat as stat_mod
+    old = os.stat(path)
+    data = open(path, "rb").read()
+    if how == "touch":
+        os.utime(path, ns=(old.st_atime_ns, old.st_mtime_ns + 1_000_000_000 * (1 + variant % 3)))
+        return
+    tmp = path + ".new~"
+    mode = stat_mod.S_IMODE(old.st_mode)
+    if how == "rename_keep":
+        head = f"K{variant:05d}".encode()
+        new = head + data[len(head):] if len(data) >= len(head) else bytes((b + 1) % 256 for b in data)
+        assert len(new) == len(data) and new != data
+        data = new
+    elif how == "chmod_keep":
+        mode ^= 0o111
+    elif how != "same_newino":
+        raise ValueError(how)
+    with open(tmp, "wb") as fh:
+        fh.write(data)
+    os.chmod(tmp, mode)
+    os.utime(tmp, ns=(old.st_atime_ns, old.st_mtime_ns))
+    os.replace(tmp, path)
+    new = os.stat(path)
+    assert new.st_ino != old.st_ino and new.st_mtime_ns == old.st_mtime_ns and new.st_size == old.st_size, (old, new)
 
 
 def fid(path, paths):
@@ -155,22 +201,31 @@ async def run_case(spec):
 
         version = {}
 
-        def write(path, variant):
-            """variant 0 deletes; otherwise a never-before-used content (no A-B-A by construction)
-            unless spec says `restore`."""
+        def write(path, variant, how="inplace"):
+            """variant 0 deletes; otherwise a never-before-used content (no A-B-A by construction).
+            `how` = the way the file system is told (see REPLACE_KINDS): only `inplace` keeps the inode and
+            lets the kernel stamp a new mtime; the `*_keep` / `same_newino` kinds preserve mtime (and mode,
+            and for rename_keep the size) across a rename(2), `touch` changes nothing but the mtime."""
             p = Path(path)
+            how = how if (p.is_file() or how in ("inplace", "rename")) else "inplace"
             if variant == 0:
                 if p.exists():
                     p.remove()
-            else:
+            elif how in ("inplace", "rename"):
                 if str(p.parent):
                     p.parent.makedirs_p()
-                p.write_text(f"{path}:{variant}:" + "x" * (variant % 7))
+                target = p if how == "inplace" else Path(path + ".new~")
+                target.write_text(f"{path}:{variant}:" + "x" * (variant % 7))
                 if variant % 5 == 0:
-                    p.chmod(0o755)
+                    target.chmod(0o755)
+                if how == "rename":
+                    os.replace(target, p)
+            else:
+                replace_file(path, variant, how)
             c = disk_code(path)
             case.order += 1
             case.contents.setdefault(path, []).append((case.order, c))
+            case.how[(path, case.order)] = how if variant else "delete"
             return c
 
         def disk_code(path):
@@ -358,9 +413,10 @@ async def run_case(spec):
             if kind == "tick":
                 clock.now += a[1]
             elif kind == "write":
-                c = write(a[1], a[2])
+                c = write(a[1], a[2], a[3] if len(a) > 3 else "inplace")
                 case.trace.append(("EWrite", (fid(a[1], paths), c), None))
-                case.log.append({"what": "external-write", "order": case.order, "path": a[1]})
+                case.log.append({"what": "external-write", "order": case.order, "path": a[1],
+                                 "how": case.how[(a[1], case.order)]})
             elif kind == "produce":
                 await produce(a[1], ok=a[2], variant=a[3])
             elif kind == "pstart":
